@@ -18,7 +18,7 @@ func TestC11(t *testing.T) {
 	e := LoadEnv("C11")
 	cf := NewCaseFile("C11", "From Cache Require Import Base Backend Spec Check.", "check_c11")
 	cf.Rule = "configs: TimeToLive in {default, 1h, Unlimited}, DeleteExpiredAfter in {default 24h, 1m, 1h}, no eviction limit; " +
-		"sequences of 6..40 ops from {write (context TTL none/+1h/-1h/1s/-30h/+100h), read, walk, len, cleanup via VerifCleanup, " +
+		"sequences of 6..40 ops from {write (context TTL none/+1h/-1h/1s/-30h/+100h), read, walk, len, ExpireAll, cleanup via VerifCleanup, " +
 		"janitor = sleeping across 1..3 real janitor intervals} with sleeps 0..30h; every cleanup bracketed by Walks; 3 backends; " +
 		"non-trivial = a cleanup that removed something and kept something; distinct = distinct Gallina term; plus, per backend, rounds of a per-call-TTL write racing a cleanup cycle " +
 		"on an UnlimitedTTL cache of 120 never-expiring entries followed by two quiet cycles (frozen clock, real parallelism), recorded in the order the observations dictate"
@@ -40,7 +40,7 @@ func TestC11(t *testing.T) {
 	for _, fl := range Flavours {
 		for i := 0; i < n; i++ {
 			conf := confs[e.Rng.Intn(len(confs))]
-			kinds := []string{"write", "write", "write", "write", "read", "walk", "len", "cleanup", "cleanup"}
+			kinds := []string{"write", "write", "write", "write", "read", "walk", "len", "cleanup", "cleanup", "expireall"}
 
 			if conf.JanitorInterval > 0 {
 				kinds = []string{"write", "write", "write", "write", "read", "walk", "len", "janitor", "janitor"}
